@@ -306,7 +306,18 @@ func (g *gctx) typ(depth int, inContainer bool) *TD {
 			g.seq++
 			f := Field{Name: fmt.Sprintf("F%d", g.seq), T: g.typ(depth-1, false)}
 			jn := fmt.Sprintf("f%d", g.seq)
-			switch rapid.IntRange(0, 5).Draw(g.t, "tag") {
+			switch rapid.IntRange(0, 8).Draw(g.t, "tag") {
+			case 6:
+				// the ",string" option: encoding/json quotes booleans, numbers and strings, ignores it elsewhere
+				f.Tag = fmt.Sprintf(`json:"%s,string"`, jn)
+				g.feats["tag-string"] = true
+			case 7:
+				f.Tag = `json:"-,"` // the key "-"
+				g.feats["tag-dash-key"] = true
+			case 8:
+				// the JSON name of a field of the embedded types: the outer field shadows it
+				f.Tag = fmt.Sprintf(`json:"%s"`, rapid.SampledFrom([]string{"a", "s", "b"}).Draw(g.t, "shadow"))
+				g.feats["shadowing-name"] = true
 			case 0:
 				f.Tag = fmt.Sprintf(`json:"%s"`, jn)
 			case 1:
